@@ -83,7 +83,7 @@ def params_from_cmd(config: Params) -> None:
     # the tests string includes the test restrictions while the vm strings include the ones for the vm variants
     tests_str, nets_str, vm_strs = "", "", {vm: "" for vm in available_vms}
     # explicit net suffixes and nets restrictions are mutually exclusive in any order
-    with_explicit_nets = False
+    with_explicit_nets, with_restricted_nets = False, False
 
     # main tokenizing loop
     for cmd_param in config["params"]:
@@ -111,6 +111,7 @@ def params_from_cmd(config: Params) -> None:
                         f"Cannot specify a nets restriction {key}={value} together with "
                         f"explicit net suffixes, currently also specified '{param_dict['nets']}'"
                     )
+                with_restricted_nets = True
                 nets_str = (
                     "%s %s\n" % (key.replace("_nets", ""), value) if value else ""
                 )
@@ -147,7 +148,7 @@ def params_from_cmd(config: Params) -> None:
                         "%s" % (vm_name, ", ".join(available_vms))
                     )
         elif key == "nets":
-            if nets_str != "":
+            if with_restricted_nets:
                 raise ValueError(
                     f"Cannot specify explicit net suffixes {value} together with "
                     f"a nets restriction, currently also specified '{nets_str.rstrip()}'"
